@@ -60,6 +60,10 @@ type SendCase struct {
 	Writes  []int          `json:"writes"`
 	Advs    []Adv          `json:"advs"`
 	Seed    uint64         `json:"seed"`
+	// PlaceISS (active opens): the stack's initial sequence number is set to StackISS (hook
+	// H2), at most the bytes written below 2^31 / 2^32: always when hosted by C14's plan
+	PlaceISS bool   `json:"place_iss,omitempty"`
+	StackISS uint32 `json:"stack_iss,omitempty"`
 }
 
 type offer struct {
@@ -68,6 +72,9 @@ type offer struct {
 }
 
 var dbg = os.Getenv("C04_DBG") != ""
+
+// forceWrap is set by the C14 unit of the plan that hosts this package's send test.
+var forceWrap = os.Getenv("C04_FORCE_WRAP") == "1"
 
 // cookieMode (plan unit with C04_COOKIE=1): every passive open goes through the
 // listener's SYN-cookie path (the endpoint is rebuilt from the final ACK: MSS
@@ -100,11 +107,20 @@ func runSend(c SendCase) *evid.Failure {
 		p = env.Peer(0, 80, uint32(c.Seed))
 		p.Wnd = uint16(c.InitWnd)
 		done := make(chan bool, 1)
+		if c.PlaceISS {
+			netsim.PlaceISSBegin(c.StackISS)
+		}
 		go func() {
 			e, ok := cs.Connect(tcpip.FullAddress{Addr: env.PeerAddr(), Port: 80}, 5*time.Second)
 			done <- ok && e == nil
 		}()
 		f, _, ok := env.Tap.Scan(0, 3*time.Second, func(f netsim.Frame) bool { return f.Pkt.L4Kind == "tcp" && f.Pkt.Flags&codec.SYN != 0 })
+		if c.PlaceISS {
+			netsim.PlaceISSEnd()
+			if ok && f.Pkt.Seq == c.StackISS {
+				evid.Label("send:stack-iss-placed-next-to-a-wrap-point")
+			}
+		}
 		if !ok {
 			return nil
 		}
@@ -437,6 +453,16 @@ func genSend(rt *rapid.T) SendCase {
 	}
 	if len(c.Writes) == 0 {
 		c.Writes = []int{100}
+	}
+	if forceWrap || rapid.SampledFrom([]int{0, 0, 0, 0, 1}).Draw(rt, "place") == 1 {
+		c.Active, c.PlaceISS = true, true
+		// (mostly early in the transfer, so that window changes follow the crossing)
+		k := uint32(rapid.OneOf(rapid.IntRange(0, total/8+2), rapid.IntRange(0, total/8+2), rapid.IntRange(0, total+2)).Draw(rt, "iss_k"))
+		if rapid.Bool().Draw(rt, "iss_32") {
+			c.StackISS = 0 - k
+		} else {
+			c.StackISS = 1<<31 - k
+		}
 	}
 	m := rapid.IntRange(0, 30).Draw(rt, "nadvs")
 	for i := 0; i < m; i++ {
